@@ -99,6 +99,9 @@ Section Mon.
     | RNone => []
     end.
 
+  Definition no_commit (seg : list event) : list N :=
+    if existsb (fun e => match snd e with ECommit _ => true | _ => false end) seg then [13] else [].
+
   Fixpoint mon_cmds (ks : list cmd) (rs : list reply) (segs : list (list event)) (pre : option mstate)
            (lgpre : list event) (d : dstate) : list N :=
     match ks, rs, segs with
@@ -107,9 +110,9 @@ Section Mon.
         let here :=
           match k with
           | CData _ => if m_from d && match m_rcpts d with [] => false | _ => true end then data_clauses pre lgpre seg d r else []
-          | CRcpt x => match r with ROk => if mem x (chk_rcpt cf) then [12] else [] | _ => [] end
-          | CMail x => match r with ROk => if negb (deferred cf) && (mem x (chk_start cf) || mem x (bad_senders cf)) then [12] else [] | _ => [] end
-          | _ => []
+          | CRcpt x => (match r with ROk => if mem x (chk_rcpt cf) then [12] else [] | _ => [] end) ++ no_commit seg
+          | CMail x => (match r with ROk => if negb (deferred cf) && (mem x (chk_start cf) || mem x (bad_senders cf)) then [12] else [] | _ => [] end) ++ no_commit seg
+          | _ => no_commit seg      (* only a DATA command that ran to its end may commit anything *)
           end in
         let d' :=
           match k, r with
